@@ -34,6 +34,8 @@ def signed_matrix(n, dens, scheme, directed, seed):
         W = 10.0 ** rs.uniform(-12, 0, size=(n, n)) * rs.choice([-1.0, 1.0], size=(n, n))
     elif scheme == 'denorm':  # magnitudes whose pairwise products underflow to zero
         W = 10.0 ** rs.uniform(-300, -160, size=(n, n)) * rs.choice([-1.0, 1.0], size=(n, n))
+    elif scheme == 'nearmax':  # magnitudes within a factor 4 of the largest float: w + w is already inf
+        W = 10.0 ** rs.uniform(307.6, 308.2, size=(n, n)) * rs.choice([-1.0, 1.0], size=(n, n))
     elif scheme == 'fewneg':  # mostly positive
         W = np.abs(rs.randn(n, n)) * rs.choice([-1.0, 1.0], size=(n, n), p=[.15, .85])
     else:
@@ -60,6 +62,11 @@ def cases(tier, seed):
         for f in FUNCS:
             out.append({'f': f, 'n': n, 'dens': dens, 'scheme': scheme, 'ms': ms, 'kind': 'single',
                         'rs': seed * 100 + t, 'pol': POL[t % len(POL)], 'allpol': thorough and t % 6 == 0})
+    for t in range(20 if thorough else 6):      # weights next to the largest representable float
+        n = int(rs.randint(5, nmax + 1))
+        for f in FUNCS:
+            out.append({'f': f, 'n': n, 'dens': float(rs.choice([1.0, .6])), 'scheme': 'nearmax', 'ms': int(rs.randint(1 << 30)),
+                        'kind': 'single', 'rs': seed * 100 + t, 'pol': POL[t % len(POL)], 'allpol': False})
     for t in range(40 if thorough else 12):     # networks with self-connections
         n = int(rs.randint(5, nmax + 1))
         for f in ('null_model_und_sign', 'null_model_dir_sign'):
@@ -111,7 +118,7 @@ def one(REC, bct, f, W, cfg, rng):
         X, R = res
         X = np.asarray(X)
         post(REC, f, Win, X, und)
-        if X.shape == Win.shape:
+        if X.shape == Win.shape and cfg.get('scheme') != 'nearmax':     # (strength sums of such weights are inf on both sides)
             exp = corr_oracle(Win, X)
             okc = len(R) == 4 and all(close(np.array(a), np.array(b), rtol=1e-9, atol=1e-12) for a, b in zip(R, exp))
             REC.check(PROP, f, 'strength_correlations', okc, {'W': Win, 'X': X, 'returned': list(R), 'expected': list(exp)})
@@ -171,7 +178,7 @@ def run(case, bct, REC):
         if f.startswith('null_model'):
             for swaps in (0, 1, 5):
                 for wf in (0, .1, .5, 1):
-                    one(REC, bct, f, W, {'swaps': swaps, 'wf': wf}, rngmod.make_rng(d))
+                    one(REC, bct, f, W, {'swaps': swaps, 'wf': wf, 'scheme': case['scheme']}, rngmod.make_rng(d))
         else:
             for itr in (0, 1, 5):
                 one(REC, bct, f, W, {'itr': itr}, rngmod.make_rng(d))
